@@ -245,6 +245,9 @@ func (h *hostGen) shape(d int) *hostShape {
 		}}
 	default: // struct
 		n := 1 + h.r.Intn(4)
+		if h.r.Intn(12) == 0 { // wide structs: sizes around lookup-structure thresholds
+			n = []int{7, 8, 9, 10, 15, 16, 17, 32, 33, 65}[h.r.Intn(10)]
+		}
 		type fld struct {
 			sh      *hostShape
 			name    string
@@ -257,8 +260,14 @@ func (h *hostGen) shape(d int) *hostShape {
 		tyFs := make([]ref.Fld, n)
 		names := []string{"a", "b", "名", "x1", "score", "Bonus", "w", "h", "items", "t"}
 		h.r.Shuffle(len(names), func(i, j int) { names[i], names[j] = names[j], names[i] })
+		for i := len(names); i < n; i++ {
+			names = append(names, fmt.Sprintf("f%d", i))
+		}
 		for i := range fs {
 			in := h.shape(d - 1)
+			if i >= 4 {
+				in = h.prim() // (the extra fields of wide structs stay small)
+			}
 			f := fld{sh: in, name: names[i]}
 			k := in.GoT.Kind()
 			f.nilable = k == reflect.Ptr || k == reflect.Slice || k == reflect.Map || k == reflect.Interface
